@@ -66,6 +66,14 @@ func init() {
 			e.Assume(e.tb.And(e.tb.Cmp(OpSle, lo, x), e.tb.Cmp(OpSle, x, hi)))
 			return x
 		},
+		// the length of a short read of a model reader: its own draw kind, because a native
+		// replay over a real loopback socket does not consume these draws (the kernel decides)
+		"verif_CutRange": func(e *Engine, fr *frame, a []Value) Value {
+			lo, hi := a[0].(*Term), a[1].(*Term)
+			x := e.fresh("cut", BV(64))
+			e.Assume(e.tb.And(e.tb.Cmp(OpSle, lo, x), e.tb.Cmp(OpSle, x, hi)))
+			return x
+		},
 		"verif_Choose": func(e *Engine, fr *frame, a []Value) Value {
 			n := int(e.concInt(a[0].(*Term), "choose n"))
 			c := e.ChooseN(n)
